@@ -288,7 +288,10 @@ def _unpickled_stub_with_reverse_value(case, message):
     __setstate__ -> _db_set_ removes the unpickled object from cache.seeds, so nothing reloads it and it keeps the base
     class.  (The bare-key variant is repaired by 0c47526.)"""
     focus, m = _focus_model(case)
-    if focus['kind'] != 'pickle_load':
+    # the stale object stays in the identity map for the rest of the session in which something was unpickled, so
+    # every later operation of that session can meet it
+    ops = m.spec['sessions'][focus['session']][:focus['op'] + 1]
+    if not any(op[0] == 'pickle_load' for op in ops):
         return False
     if focus.get('mismatch') == 'exception':
         # diamond: the unpickled B-typed object is no seed any more, so meeting it again as its sibling base C cannot
@@ -303,7 +306,7 @@ def _unpickled_stub_with_reverse_value(case, message):
                         if k2 != k and t1 not in m.anc[t2] and t2 not in m.anc[t1] and any(oo == o for (hh, oo) in m.links[k2]):
                             return True
         return False
-    if not focus.get('path', '').startswith('unpickled') or 'obj' not in focus:
+    if 'obj' not in focus:
         return False
     o = focus['obj']
     kcls = m.objs[o]['cls']
